@@ -276,7 +276,15 @@ pub fn build_modules(mods: &[(ItemPath, grammar::Module)], ptrw: usize, mut opts
         }),
     };
     let trace = std::mem::take(&mut *trace.borrow_mut());
+    release_spans();
     Outcome { result, trace }
+}
+
+/// proc-macro2 keeps the text of everything parsed on a thread (for span locations) until it is
+/// told to let go; a check makes hundreds of thousands of builds per thread. Only called where
+/// nothing that holds a span (a `syn::Error`, a token) is alive any more.
+pub fn release_spans() {
+    proc_macro2::extra::invalidate_current_thread_spans();
 }
 
 /// Online bound on the resolution loop: every iteration but the last resolves an item or
@@ -386,7 +394,7 @@ pub fn build_dir(files: &[(String, String)], ptrw: usize) -> Result<BTreeMap<Str
     pyxis::verif::set_sink(Some(Box::new(move |e| bound.observe(&e))));
     let r = guarded(|| pyxis::build(&in_dir, &out_dir, ptrw));
     pyxis::verif::set_sink(None);
-    match r {
+    let r = match r {
         Err(p) => Err(BuildErr {
             stage: Stage::Panic,
             msg: p,
@@ -396,7 +404,9 @@ pub fn build_dir(files: &[(String, String)], ptrw: usize) -> Result<BTreeMap<Str
             msg: chain_msg(&e),
         }),
         Ok(Ok(())) => Ok(read_tree(&out_dir)),
-    }
+    };
+    release_spans();
+    r
 }
 
 pub fn item_path(s: &str) -> ItemPath {
